@@ -244,6 +244,7 @@ func (e *Engine) verifyFunc(name string, forceSafety bool) (res *FuncResult) {
 		}
 	}
 	f.run("true")
+	vc.siteClauseCoverage(fn)
 	if vc.contract != nil && len(f.rets) > 0 && len(vc.contract.Ensures) > 0 {
 		// (only meaningful when there are postconditions that an unreachable return would make vacuous)
 		var conds []string
